@@ -1,4 +1,5 @@
 import SaVerif.Lemmas.PySlice
+import SaVerif.Lemmas.PyDelSlice
 import SaVerif.Lemmas.PySet
 import SaVerif.Lemmas.PyDict
 /-!
@@ -246,7 +247,6 @@ theorem instrumented_list_refines_list_partial (l : List Item) (op : LOp)
 def EventsGuard (l : List Item) : LOp → Prop
   | .remove x => x ∈ l
   | .imul n => n = 1
-  | .delslice _ => False          -- see `delslice_events_are_the_slice`
   | op => ContentsGuard l op
 
 /-- **instrumented_list_events_account_partial**: old contents + appended = new contents +
@@ -393,7 +393,7 @@ theorem instrumented_list_events_account_partial (l : List Item) (op : LOp)
             simpa using hacc
         · simp only [hk]
           exact acc_refl l
-  | delslice s => exact absurd hg (by simp [EventsGuard])
+  | delslice s => exact iDelSlice_accounts l s
   | imul n =>
     have hn : n = 1 := hg
     subst hn
@@ -405,12 +405,15 @@ theorem instrumented_list_events_account_partial (l : List Item) (op : LOp)
     unfold Accounts; simp [apps, rems]
     exact (List.reverse_perm l).symm
 
-/-- `del l[slice]`: by transcription the events are one remove per item of `self[index]` and
-    the contents are the builtin deletion (what remains to relate the two is a fact about the
-    builtin list alone, validated against CPython by the correspondence) -/
-theorem delslice_events_are_the_slice (l : List Item) (s : Slice) (items l' : List Item)
-    (h1 : pGetSlice l s = .ok items) (h2 : pDelSlice l s = .ok l') :
-    iDelSlice l s = ⟨l', items.map .rem, .none⟩ := by
+/-- `del l[slice]` for ANY start/stop/step: the events are one remove per item of `l[slice]`
+    and those are exactly the items the deletion takes out (the positions of
+    `range(*slice.indices(len))` are distinct and valid) -/
+theorem delslice_events_are_the_slice (l : List Item) (s : Slice) :
+    Accounts l (iDelSlice l s).events (iDelSlice l s).items ∧
+    (∀ items l', pGetSlice l s = .ok items → pDelSlice l s = .ok l' →
+      iDelSlice l s = ⟨l', items.map .rem, .none⟩) := by
+  refine ⟨iDelSlice_accounts l s, ?_⟩
+  intro items l' h1 h2
   unfold iDelSlice; rw [h1, h2]
 
 /-! ## operation sequences -/
@@ -433,6 +436,43 @@ theorem instrumented_list_sequence_refines_list_partial (ops : List LOp) : ∀ (
     obtain ⟨hi, hr⟩ := instrumented_list_refines_list_partial l op h1
     simp only [iRun, pRun, List.map_cons]
     rw [hi, hr, ih _ h2]
+
+def AllEventsGuarded : List Item → List LOp → Prop
+  | _, [] => True
+  | l, op :: ops => EventsGuard l op ∧ AllEventsGuarded (iStep l op).items ops
+
+/-- all events fired along a sequence, in order -/
+def allEvents : List Res → List Event
+  | [] => []
+  | r :: rs => r.events ++ allEvents rs
+
+def lastItems (l : List Item) (rs : List Res) : List Item :=
+  match rs.getLast? with
+  | some r => r.items
+  | none => l
+
+theorem lastItems_cons (l : List Item) (r : Res) (rs : List Res) :
+    lastItems l (r :: rs) = lastItems r.items rs := by
+  cases rs with
+  | nil => rfl
+  | cons h t => unfold lastItems; rw [List.getLast?_cons_cons]; simp [List.getLast?_cons]
+
+/-- **instrumented_list_history_events_account_partial**: over a whole operation history the
+    initial contents plus every item ever appended equal the final contents plus every item
+    ever removed (multisets) — by induction over the history -/
+theorem instrumented_list_history_events_account_partial (ops : List LOp) : ∀ (l : List Item),
+    AllEventsGuarded l ops →
+    Accounts l (allEvents (iRun l ops)) (lastItems l (iRun l ops)) := by
+  induction ops with
+  | nil => intro l _; exact acc_refl l
+  | cons op ops ih =>
+    intro l hg
+    obtain ⟨h1, h2⟩ := hg
+    have a1 := instrumented_list_events_account_partial l op h1
+    have a2 := ih (iStep l op).items h2
+    simp only [iRun, allEvents]
+    rw [lastItems_cons]
+    exact acc_trans a1 a2
 
 /-! ## the excluded regions are real: counterexamples (each replayed on the real code) -/
 
